@@ -30,7 +30,11 @@ func CaptureResponse(w http.ResponseWriter) *ResponseCapture {
 
 // WriteHeader records the value of the status code before writing it.
 func (w *ResponseCapture) WriteHeader(code int) {
-	w.StatusCode = code
+	if w.StatusCode < 200 {
+		// only the first final status is sent, later calls are ignored by
+		// the underlying writer.
+		w.StatusCode = code
+	}
 	w.ResponseWriter.WriteHeader(code)
 }
 
